@@ -66,7 +66,7 @@ LEVEL = "exploration"
 CASE_TIMEOUT = 60
 RULE = (
     "enumerated: every *.co under the repository (version from the nearest config.yml / file name / library location; 2.x files are "
-    "compiled together with the standard library and their sibling files); family when-exit: Colang 1.0 when / else when chains of 2-3 "
+    "compiled together with the standard library and their sibling files); family when-in-loop: a Colang 1.0 when block (1-2 branches) inside a while body x a break / continue in front of the block, inside a branch (first / last statement) and behind it x loop at the flow end / followed / nested in an outer loop (264 cases); family when-exit: Colang 1.0 when / else when chains of 2-3 "
     "branches x each branch ending with nothing / return / return $v / stop x exit with or without statements in front x 9 surroundings "
     "(last statement group of the flow, followed by 1 or 3 statements, end of a while body with / without statements behind the loop, end of "
     "an if block with / without else, end of an else block, end of a branch of an outer when); family loop-exit: one Colang 2.x while loop "
@@ -219,6 +219,7 @@ def enumerate_cases(tier):
     for rel in _co_files():
         yield {"leg": "file", "path": rel}
     yield from _v1_when_family()
+    yield from _v1_when_loop_family()
     yield from _v1_goto_family()
     yield from _v2_loops_family()
     yield from _v2_groups_family()
@@ -379,6 +380,39 @@ def _v1_when_family():
                 for cname, body in contexts.items():
                     text = "define subflow fam\n  user intent start\n" + "\n".join("  " + x for x in body) + "\n"
                     yield {"leg": "v1text", "text": text, "family": "when-exit/" + cname}
+
+
+def _v1_when_loop_family():
+    """Enumerated: a `when` block (1-2 branches, with / without statements) inside a `while` body x a loop exit (break / continue / none)
+    in front of the block, inside a branch (first / last statement of it) and behind the block x the loop standing at the end of the flow
+    or followed by a statement x one nesting level more (the inner loop sits in an outer loop)."""
+    import itertools
+
+    exits = [None, "break", "continue"]
+    ind = lambda ls: ["  " + x for x in ls]  # noqa: E731
+    for before, inside, after in itertools.product(exits, exits, exits):
+        if not (before or inside or after):
+            continue
+        for branches in (1, 2):
+            for inside_pos in ("first", "last") if inside else ("none",):
+                chain = []
+                for i in range(branches):
+                    chain.append(("when" if i == 0 else "else when") + f" user intent w{i}")
+                    br = [f"bot say b{i}"]
+                    if inside and i == 0:
+                        br = [inside] + br if inside_pos == "first" else br + [inside]
+                    chain += ind(br)
+                body = []
+                if before:
+                    body += ["if $v1 == 1"] + ind([before])
+                body += ["bot say again"] + chain
+                if after:
+                    body += ["if $v1 == 2"] + ind([after]) + ["bot say tail"]
+                loop = ["while $v0 < 2"] + ind(body)
+                for ctx in ("flow-end", "followed", "nested"):
+                    lines = loop if ctx == "flow-end" else loop + ["bot say after"] if ctx == "followed" else ["while $v2 < 2"] + ind(loop + ["bot say outer"]) + ["bot say after"]
+                    text = "define flow fam\n  user intent start\n" + "\n".join("  " + x for x in lines) + "\n"
+                    yield {"leg": "v1text", "text": text, "family": f"when-in-loop/{before or 'x'}-{inside or 'x'}{'@' + inside_pos if inside else ''}-{after or 'x'}/{ctx}"}
 
 
 def _v1_goto_family():
